@@ -344,4 +344,96 @@ Section Idem.
     - rewrite shape_fix; auto. intros k Hk. apply (HR2 k Hk).
     - intros k Hk. rewrite fvs_none. apply (HR2 k Hk). lia.
   Qed.
+
+  Lemma in_names_cover tk pv k :
+    In k (keys tk) \/ field_of k pv <> None -> In k (field_names [Some (Map tk); pv]).
+  Proof.
+    intros [H|H]; apply in_field_names.
+    - exists tk. split; [left; auto|auto].
+    - destruct (field_of k pv) eqn:F; [|congruence].
+      destruct (field_of_in _ _ _ F) as [pk [-> Hk]]. exists pk. split; [right; left; auto|auto].
+  Qed.
+
+  (* ---- the induction ---- *)
+  Lemma idem_walk f : forall sc alias tv pv r,
+      W f sc alias [tv; pv] = Ok r -> aliasing alias tv pv ->
+      ofrag wfk tv = true -> ofrag wfk pv = true -> ofrag nodir pv = true ->
+      second_ok (fval nonstr r tv) pv.
+  Proof.
+    induction f as [|f IH]; intros sc alias tv pv r H Hal Hwt Hwp Hnp; [discriminate|].
+    assert (Ha : alias = None \/ alias = Some 1) by (destruct Hal as [|[? _]]; auto).
+    destruct pv as [[pt ps px| pk |pes]|].
+    - (* scalar in the patch *)
+      destruct (is_null (Scalar pt ps px)) eqn:En.
+      + destruct pt; try discriminate.
+        rewrite (null_patch_clears _ _ _ _ _ _ _ Ha H). apply second_null_patch.
+      + destruct (scalar_patch _ _ _ _ _ _ _ _ Ha En H) as [sX ->]. apply second_scalar_patch; auto.
+    - (* mapping in the patch *)
+      cbn in Hwp, Hnp. destruct (nodir_map _ Hnp) as [Hpp _].
+      assert (Hplain : plain_patch (Some (Map pk))) by exact Hpp.
+      destruct tv as [[tt ts tx| tk |tes]|].
+      + (* scalar target: null -> the patch mapping is added; otherwise a kind error *)
+        destruct (is_null (Scalar tt ts tx)) eqn:En.
+        2:{ exfalso. destruct tt; try discriminate; destruct Ha as [-> | ->]; cbn in H; discriminate. }
+        assert (alias = None) as -> by (destruct Hal as [|[_ E]]; auto; discriminate).
+        rewrite level_add in H by auto.
+        match type of H with bind ?X _ = _ => destruct X as [d| | |] eqn:Ew; cbn in H; try discriminate end.
+        inv H.
+        eapply (struct_core f _ (Some 1) _ pk _ (Some (Map pk)) d IH) in Ew;
+          [ | apply nodup_sort_uniq | exact Hwp | exact Hplain | exact Hwp | exact Hnp
+            | intros k; rewrite fvs_alias1; split; [reflexivity|]; right; split; reflexivity
+            | intros k Hk; apply in_names_cover; destruct Hk; auto ].
+        destruct Ew as [kvs' [-> Hs]].
+        cbn [fval w_node w_keep w_inplace is_null andb with_style]. destruct tt; try discriminate. exact Hs.
+      + (* mapping target *)
+        destruct Hal as [-> | [-> E]].
+        * rewrite level_merge in H by auto.
+          match type of H with bind ?X _ = _ => destruct X as [d| | |] eqn:Ew; cbn in H; try discriminate end.
+          inv H.
+          eapply (struct_core f _ None _ tk _ (Some (Map pk)) d IH) in Ew;
+          [ | apply nodup_sort_uniq | exact Hwt | exact Hplain | exact Hwp | exact Hnp
+            | intros k; rewrite fvs_none; split; [reflexivity|left; reflexivity]
+            | intros k Hk; apply in_names_cover; auto ].
+        destruct Ew as [kvs' [-> Hs]]. exact Hs.
+        * inv E. rewrite level_dup in H by auto.
+          match type of H with bind ?X _ = _ => destruct X as [d| | |] eqn:Ew; cbn in H; try discriminate end.
+          inv H.
+          eapply (struct_core f _ (Some 1) _ pk _ (Some (Map pk)) d IH) in Ew;
+          [ | apply nodup_sort_uniq | exact Hwp | exact Hplain | exact Hwp | exact Hnp
+            | intros k; rewrite fvs_alias1; split; [reflexivity|]; right; split; reflexivity
+            | intros k Hk; apply in_names_cover; destruct Hk; auto ].
+        destruct Ew as [kvs' [-> Hs]]. exact Hs.
+      + exfalso. destruct Ha as [-> | ->]; cbn in H; discriminate.
+      + (* nothing in the target: the patch mapping is added *)
+        assert (alias = None) as -> by (destruct Hal as [|[_ E]]; auto; discriminate).
+        rewrite level_add in H by auto.
+        match type of H with bind ?X _ = _ => destruct X as [d| | |] eqn:Ew; cbn in H; try discriminate end.
+        inv H.
+        eapply (struct_core f _ (Some 1) _ pk _ (Some (Map pk)) d IH) in Ew;
+          [ | apply nodup_sort_uniq | exact Hwp | exact Hplain | exact Hwp | exact Hnp
+            | intros k; rewrite fvs_alias1; split; [reflexivity|]; right; split; reflexivity
+            | intros k Hk; apply in_names_cover; destruct Hk; auto ].
+        destruct Ew as [kvs' [-> Hs]]. exact Hs.
+    - (* list in the patch *)
+      rewrite (seq_patch _ _ _ _ _ _ Ha H). apply second_seq_patch.
+    - (* nothing in the patch *)
+      destruct tv as [[tt ts tx| tk |tes]|].
+      + assert (alias = None) as -> by (destruct Hal as [|[_ E]]; auto; discriminate).
+        eapply unmentioned_leaf; eauto; exact I.
+      + assert (alias = None) as -> by (destruct Hal as [|[_ E]]; auto; discriminate).
+        rewrite level_merge in H by exact I.
+        match type of H with bind ?X _ = _ => destruct X as [d| | |] eqn:Ew; cbn in H; try discriminate end.
+        inv H.
+        eapply (struct_core f _ None _ tk _ None d IH) in Ew;
+          [ | apply nodup_sort_uniq | exact Hwt | exact I | exact eq_refl | exact eq_refl
+            | intros k; rewrite fvs_none; split; [reflexivity|left; reflexivity]
+            | intros k Hk; apply in_names_cover; auto ].
+        destruct Ew as [kvs' [-> Hs]]. exact Hs.
+      + assert (alias = None) as -> by (destruct Hal as [|[_ E]]; auto; discriminate).
+        eapply unmentioned_leaf; eauto; exact I.
+      + destruct Ha as [-> | ->].
+        * eapply unmentioned_leaf; eauto; exact I.
+        * cbn in H. unfold walk_map in H. cbn in H. inv H.
+          exists 1. eexists. split; [intros sc' g' Hg; destruct g' as [|g']; [lia|]; cbn; unfold walk_map; cbn; reflexivity|reflexivity].
+  Qed.
 End Idem.
